@@ -23,6 +23,11 @@ SCALARS = {
     '__attribute__((__vector_size__(2 * sizeof(long long)))) long long': 'm128i_t',
     '__attribute__((__vector_size__(8 * sizeof(long long)))) long long': 'm512i_t',
     'long long __attribute__((ext_vector_type(2)))': 'm128i_t',
+    '__attribute__((__vector_size__(16 * sizeof(char)))) char': 'm128i_t', '__v16qi': 'm128i_t',
+    '__attribute__((__vector_size__(64 * sizeof(char)))) char': 'm512i_t', '__v64qi': 'm512i_t',
+    '__attribute__((__vector_size__(16 * sizeof(unsigned char)))) unsigned char': 'm128i_t',
+    '__attribute__((__vector_size__(64 * sizeof(unsigned char)))) unsigned char': 'm512i_t',
+    '_MM_CMPINT_ENUM': 'int',
     'std::errc': 'int',
 }
 
